@@ -171,7 +171,10 @@ FinalBad(x) ==
     IF x.hard THEN (IF On("InvNoStall") THEN (IF frozen # {} THEN "InvNoStallWhileSuspended" ELSE "InvNoStall") ELSE "")
     ELSE IF On("InvNoUseAfterFree") /\ Len(x.anomalies) > 0 THEN "InvNoUseAfterFree"
     ELSE IF On("InvDestroyedAtMostOnce") /\ (\E i \in 1..Len(x.drops) : x.drops[i][2] > 1) THEN "InvDestroyedAtMostOnce"
-    ELSE IF On("InvDestroyedExactlyOnce") /\ x.torn_down /\ x.tracked /\ (\E i \in 1..Len(x.drops) : x.drops[i][2] # 1) THEN "InvDestroyedExactlyOnce"
+    \* "exactly once as soon as it has been delivered and every handle to it released": everything was consumed (by the streams or the
+    \* final drain), nothing is held any more, so every payload ever created must already be destroyed -- before the channel is torn down
+    ELSE IF On("InvDestroyedExactlyOnce") /\ x.tracked /\ x.drained /\ x.held = 0 /\ Quiet
+            /\ (\E i \in 1..Len(x.drops_at_quiescence) : x.drops_at_quiescence[i][2] # 1) THEN "InvDestroyedExactlyOnce"
     ELSE IF On("InvNoLossNoInvention") /\ Quiet /\ ~x.frozen /\ x.drained
             /\ (\E v \in Range(accS) \cup Range(LeftAll(x)) : Count(accS, v) # Count(delS, v) + Count(LeftAll(x), v)) THEN "InvNoLossNoInvention"
     ELSE IF On("InvNoLostWakeup") /\ Quiet /\ ParkedSome /\ ~cancelled /\ Undelivered(x) # {} THEN (IF Racing THEN "InvNoLostWakeupRacing" ELSE "InvNoLostWakeup")
